@@ -25,11 +25,25 @@ def same_table(sp, rel, exp):
     return None
 
 
+_SP = {}
+_REL = {}
+
+
+def shared_rel(sp, R_, name):
+    """The same abstract relation is the same Python object in every case that uses it: the operations must not
+    depend on, or leave, hidden state in their operands (history of calls on one object)."""
+    import json
+    k = json.dumps([R_["scope"], R_["tab"]])
+    if k not in _REL:
+        _REL[k] = sp.matrix_rel(R_, name)
+    return _REL[k]
+
+
 def execute(case):
-    sp = Space(case["exp"]["ds"])
+    sp = _SP.setdefault("sp", Space(case["exp"]["ds"]))
     op = case["op"]
     if op == "set":
-        r = sp.matrix_rel(case["r"])
+        r = shared_rel(sp, case["r"], "r")
         before = sp.table_of(r, case["r"]["scope"])
         a = sp.asg(case["asg"]) if case["asg"] else {}
         arg = a if case["form"] == "dict" else [a[v] for v in case["r"]["scope"]]
@@ -41,10 +55,10 @@ def execute(case):
             return "set_value_for_assignment returned the original object"
         return same_table(sp, new, case["exp"])
     if op == "join":
-        res = R.join(sp.matrix_rel(case["r1"], "r1"), sp.matrix_rel(case["r2"], "r2"))
+        res = R.join(shared_rel(sp, case["r1"], "r1"), shared_rel(sp, case["r2"], "r2"))
         return same_table(sp, res, case["exp"])
     if op == "proj":
-        res = R.projection(sp.matrix_rel(case["r"]), sp.vars[case["x"]], case["mode"])
+        res = R.projection(shared_rel(sp, case["r"], "r"), sp.vars[case["x"]], case["mode"])
         return same_table(sp, res, case["exp"])
     raise ValueError(op)
 
